@@ -270,12 +270,20 @@ func anyNodeSetExpr(g *xgen.G, rt *rapid.T, ctx *xdoc.Node) xast.Expr {
 	case 10:
 		// p/(s1, s2[, s3])
 		p := g.AxisPath(ctx, xgen.PathOpts{MaxSteps: 2, AbsShare: 5, DSlash: 3})
-		seq := &xast.SeqStep{}
-		n := 2 + rapid.IntRange(0, 1).Draw(rt, "nalts")
-		for i := 0; i < n; i++ {
-			seq.Alts = append(seq.Alts, g.Step(nil))
+		// one time in four a chain p/(..)/(..)/..: every further sequence doubles or trebles what
+		// the builder makes of the path, the text grows by a few bytes
+		chain := 1
+		if rapid.IntRange(0, 3).Draw(rt, "seqchain") == 0 {
+			chain = rapid.IntRange(2, 6).Draw(rt, "nseqs")
 		}
-		p.Steps = append(p.Steps, seq)
+		for c := 0; c < chain; c++ {
+			seq := &xast.SeqStep{}
+			n := 2 + rapid.IntRange(0, 1).Draw(rt, "nalts")
+			for i := 0; i < n; i++ {
+				seq.Alts = append(seq.Alts, g.Step(nil))
+			}
+			p.Steps = append(p.Steps, seq)
+		}
 		return p
 	case 0, 1, 2:
 		return g.AxisPath(ctx, xgen.PathOpts{MaxSteps: 3, AbsShare: 4, DSlash: 2})
